@@ -422,6 +422,8 @@ def r8(ctx: Context) -> None:
         mod = f.module.name
         if not (mod.startswith("pynenc.serializer") or mod.startswith("pynenc.client_data_store") or mod in ("pynenc.arguments", "pynenc.call")):
             continue
+        if f.name.lstrip("_").startswith(("deserial", "decode", "load", "reconstruct", "from_", "resolve", "retrieve", "get")):
+            continue  # the read path parses stored text: trimming / case handling of markers there does not touch the user's value
         n_a += 1
         bad = [c for c in calls_in(f.node) if call_name(c) in _LOSSY and (isinstance(c.func, ast.Attribute) or call_name(c) == "round")]
         # `.strip()` & co on things that are not the user's value (module / class names, markers) are fine: only calls whose
@@ -429,7 +431,7 @@ def r8(ctx: Context) -> None:
         vals = set(f.params[1:] if f.cls is not None else f.params)
         bad = [c for c in bad if any(isinstance(x, ast.Name) and x.id in vals for x in ast.walk(c))]
         ctx.add("R8", f"{f.qualname}::no-lossy-transform-of-the-value", not bad, f.loc(bad[0]) if bad else f.loc(), "" if not bad else f"`{ast.unparse(bad[0])[:60]}` changes the value on its way into the stored form: two different arguments get one serialised text (one call identity) and the worker receives a string / number the caller did not pass")
-    ctx.floor("R8", "functions on the serialisation path", n_a, 40)
+    ctx.floor("R8", "functions on the serialisation (write) path", n_a, 25)
     # (b) per-element dictionaries
     n_b = 0
     for f in repo.all_functions():
